@@ -34,6 +34,8 @@ var c08Results = []presult{
 	// the same keys as tool-internal configuration (a label installed by the tool, a key marked internal through
 	// the API): whether a key is file configuration is a property of each result, not of the key
 	{"X", [][3]string{{"goos", "linux", "i"}, {"extra", "e", "i"}}, []string{"u1"}},
+	// a name that has the second sub-name key of the alphabet but not the first
+	{"X/j=2", [][3]string{{"goos", "linux", "f"}}, []string{"u1"}},
 }
 
 var c08Exprs = []string{".config", ".fullname", ".name", "/k", "/gomaxprocs", "goos", "pkg", ".file"}
@@ -299,6 +301,9 @@ var c08Compound = [][]string{
 	// a rejected expression between accepted ones (it repeats keys the accepted ones name)
 	{"goos", "!goos,pkg@bogus", ".config"}, {"goos", ".config", "!goos,.unit"}, {"/k", "!/k,.config@(a)", ".fullname"},
 	{"pkg,goos", "!pkg@(", ".config"}, {".name", "!.name,goos@nosuch", ".fullname", "goos"},
+	// two specific sub-name keys named by one parser, in both orders, in one and in several expressions
+	{"/k", "/j", ".fullname"}, {"/j", "/k", ".fullname"}, {"/k,/j", ".fullname"}, {"/j,/k,.fullname"}, {".fullname", "/k", "/j"},
+	{"/j", ".fullname,/k"}, {"/k", "/gomaxprocs", "/j", ".fullname"}, {"/j,.name", "/k", ".fullname"},
 }
 
 func c08Space(c *mc.Check, depth int, maxExprs int) {
